@@ -1,4 +1,5 @@
-"""C19 - alignment comparison partitions keys; measures are bounded and reflexive (S1 on AlignmentComparer.compare)."""
+"""C19 - alignment comparison partitions keys; measures are bounded and reflexive (S1 on AlignmentComparer.compare, and the
+compare_alignments command on generated files)."""
 import itertools
 
 from mc import core
@@ -95,6 +96,116 @@ def check_case(ca, cb, flag, acc):
     return found
 
 
+# ------------------------------------------------------------------------------------------------
+# the comparison command itself: two XMAP files written in COMA's layout (seven header lines), reference and query CMAPs, the
+# counts read from the report it writes
+
+XHEAD = ("# hostname=x\n# coma --x y\n# XMAP File Version:\t0.2\n# Reference Maps From:\tr.cmap\n# Query Maps From:\tq.cmap\n"
+         "#h\tXmapEntryID\tQryContigID\tRefContigID\tQryStartPos\tQryEndPos\tRefStartPos\tRefEndPos\tOrientation\tConfidence\tHitEnum\tQryLen\tRefLen\t"
+         "AlignedRest\tLabelChannel\tAlignment\n#f\tint\tint\tint\tfloat\tfloat\tfloat\tfloat\tstring\tfloat\tstring\tfloat\tfloat\tstring\tint\tstring\n")
+FILE_OPTS = [None, 1, 2, 7]
+
+
+def _xmap_text(choice):
+    out = [XHEAD]
+    n = 0
+    for (q, r), c in zip(KEYS, choice):
+        if c is None:
+            continue
+        n += 1
+        out.append('%d\t%d\t%d\t0.0\t1.0\t0.0\t1.0\t%s\t10.00\t%dM\t1.0\t1.0\tFalse\t1\t%s\n' % (
+            n, q, r, '-' if c == 7 else '+', len(CAT[c]), ''.join('(%d,%d)' % p for p in CAT[c])))
+    return ''.join(out)
+
+
+@core.guarded(lambda ca, cb, *a: dict(kind='files', A=list(ca), B=list(cb)))
+def check_files(ca, cb, acc):
+    import os
+    from mc import cmaptext
+    from src import compare_alignments as cmpmod
+    d = os.path.join(core.scratch_dir(), 'c19-%d' % os.getpid())
+    os.makedirs(d, exist_ok=True)
+    paths = {k: os.path.join(d, k) for k in ('a.xmap', 'b.xmap', 'r.cmap', 'q.cmap', 'out.txt')}
+    maps = [(1, 900.0, [100.0, 200.0, 300.0, 400.0]), (2, 950.0, [150.0, 250.0, 350.0, 450.0])]
+    for k in ('r.cmap', 'q.cmap'):
+        with open(paths[k], 'w') as f:
+            f.write(cmaptext.text(maps))
+    with open(paths['a.xmap'], 'w') as f:
+        f.write(_xmap_text(ca))
+    with open(paths['b.xmap'], 'w') as f:
+        f.write(_xmap_text(cb))
+    found = []
+    case = dict(kind='files', A=list(ca), B=list(cb))
+    counts = None
+    try:
+        args = cmpmod.Args.parse([paths['a.xmap'], paths['b.xmap'], '-r', paths['r.cmap'], '-q', paths['q.cmap'], '-o', paths['out.txt']])
+        try:
+            cmpmod.Program(args).run()
+        finally:
+            for fobj in list(args.alignmentFiles) + [args.referenceFile, args.queryFile, args.outputFile]:
+                fobj.close()
+        txt = open(paths['out.txt']).read()
+        counts = {l.split('\t')[0][2:]: l.rstrip('\n').split('\t')[1] for l in txt.splitlines() if l.startswith('# ') and '\t' in l and len(l.split('\t')) == 2}
+        rows = [l.split('\t') for l in txt.splitlines() if l and not l.startswith('#')]
+    except Exception as e:
+        found.append(('compare-exception', '%s: %s' % (type(e).__name__, str(e)[:200]), 'files', {}))
+    ka = {k for k, c in zip(KEYS, ca) if c is not None}
+    kb = {k for k, c in zip(KEYS, cb) if c is not None}
+    if counts is not None:
+        if not (ka | kb):
+            pass        # two empty sets: nothing is written
+        else:
+            try:
+                o, n_, f1, f2 = (int(counts[k]) for k in ('Overlapping', 'NonOverlapping', 'FirstOnly', 'SecondOnly'))
+            except Exception:
+                o = n_ = f1 = f2 = None
+                found.append(('report-unreadable', str(counts), 'files', {}))
+            if o is not None:
+                if o + n_ + f1 + f2 != len(ka | kb):
+                    found.append(('counts-do-not-partition-keys', '%s+%s+%s+%s != %d keys' % (o, n_, f1, f2, len(ka | kb)), 'files', {}))
+                if (f1, f2) != (len(ka - kb), len(kb - ka)):
+                    found.append(('only-counts-differ-from-set-differences', 'first %s second %s, expected %s %s' % (f1, f2, len(ka - kb), len(kb - ka)), 'files', {}))
+                if ca == cb:
+                    for r in rows:
+                        if 'BOTH' in r:
+                            t = r.index('BOTH')       # the report's rows start with a running number
+                            pairs_listed = any(x.strip() for x in r[t + 7:t + 9])
+                            if pairs_listed and r[t + 1:t + 4] != ['1.000', '1.000', '1.000']:
+                                found.append(('not-reflexive', 'key (%s,%s): identity/coverages %s' % (r[t - 2], r[t - 1], r[t + 1:t + 4]), 'files', {}))
+    if acc is not None:
+        acc.evals += 1
+        acc.transitions += 3
+        acc.state(('f', tuple(sorted((counts or {}).items()))))
+        if ka and kb:
+            acc.nontriv(('f', ca, cb))
+        for f in found:
+            acc.viol(f[0], case, f[1], f[2], f[3])
+        acc.sample(case)
+    return found
+
+
+class Files(core.Layer):
+    name = 'files:compare_alignments'
+    optional = False
+
+    def __init__(self):
+        self.sides = list(itertools.product(FILE_OPTS, repeat=3))
+        self.bounds = dict(keys=[list(k) for k in KEYS], options_per_key=[str(o) for o in FILE_OPTS], header_lines=7)
+        self.rule = '%d x %d ordered pairs of XMAP files through compare_alignments.Program, counts read from the report' % (len(self.sides), len(self.sides))
+
+    def nblocks(self):
+        return len(self.sides)
+
+    def run_block(self, b, acc):
+        ca = self.sides[b]
+        for cb in self.sides:
+            acc.seq += 1
+            check_files(ca, cb, acc)
+
+    def replay(self, case):
+        return check_files(tuple(case['A']), tuple(case['B']), None)
+
+
 class Pairs(core.Layer):
     def __init__(self, name, opts, optional=False):
         self.name, self.optional = name, optional
@@ -118,5 +229,5 @@ class Pairs(core.Layer):
 
 def layers(tier, seed):
     if tier == 'quick':
-        return [Pairs('7-options', [None, 0, 1, 2, 5, 6, DUP])]
-    return [Pairs('10-options', [None] + list(range(len(CAT))) + [DUP])]
+        return [Pairs('7-options', [None, 0, 1, 2, 5, 6, DUP]), Files()]
+    return [Pairs('10-options', [None] + list(range(len(CAT))) + [DUP]), Files()]
